@@ -651,30 +651,26 @@ func ruleEngineVerdict(c *Ctx) {
 				}
 				continue
 			}
-			as, ok := parents[call].(*ast.AssignStmt)
-			var ifs *ast.IfStmt
-			if ok {
-				ifs, _ = parents[as].(*ast.IfStmt)
-			}
-			if ifs == nil || len(as.Lhs) != 2 {
-				c.unm(key, call.Pos(), "engine result is not consumed by `if ok, err := ...; err != nil {...} else if !ok {...}`")
+			vu := findVerdictUse(info, fd, parents, call)
+			if vu == nil {
+				c.unm(key, call.Pos(), "engine result is not assigned to (ok, err)")
 				continue
 			}
-			okObj := info.Defs[as.Lhs[0].(*ast.Ident)]
-			errObj := info.Defs[as.Lhs[1].(*ast.Ident)]
-			// err branch
-			if op, has := nilCheckOp(info, ifs.Cond, errObj); !has || op != token.NEQ || !returnsFalseErr(info, ifs.Body, errObj) {
+			if vu.errIf == nil || !returnsFalseErr(info, vu.errIf.Body, vu.errObj) {
 				c.bad(key, call.Pos(), "an engine error is not turned into (false, err)")
 				continue
 			}
-			els, _ := ifs.Else.(*ast.IfStmt)
-			if els == nil {
+			if vu.okIf == nil {
 				c.bad(key, call.Pos(), "the engine's `false` answer is not examined")
 				continue
 			}
-			u, isNot := ast.Unparen(els.Cond).(*ast.UnaryExpr)
-			if !isNot || u.Op != token.NOT || !mentions(info, u.X, okObj) || !returnsFalseNil(els.Body) {
+			if fb := vu.failBranch(parents); fb == nil || !returnsFalseNil(fb) {
 				c.bad(key, call.Pos(), "the engine's `false` answer does not yield (false, nil)")
+				continue
+			}
+			// both tests stand before the next engine query (or the end)
+			if i+1 < len(calls) && (!precedes(parents, vu.errIf, calls[i+1]) || !precedes(parents, vu.okIf, calls[i+1])) {
+				c.bad(key, call.Pos(), "the next engine query can be reached without examining this answer")
 				continue
 			}
 			c.ok(key, call.Pos(), "err => (false, err); !ok => (false, nil)")
@@ -707,27 +703,20 @@ func ruleEngineVerdict(c *Ctx) {
 		}
 		// verdict handling: if valid, err := V(...); err != nil { return error } else if !valid { return error }
 		parents := parentMap(fd.Body)
-		as, _ := parents[vn[0].call].(*ast.AssignStmt)
-		var ifs *ast.IfStmt
-		if as != nil {
-			ifs, _ = parents[as].(*ast.IfStmt)
-		}
-		if ifs == nil || len(as.Lhs) != 2 {
-			c.unm(key, vn[0].call.Pos(), "verdict not consumed by if-init form")
+		vu := findVerdictUse(info, fd, parents, vn[0].call)
+		if vu == nil {
+			c.unm(key, vn[0].call.Pos(), "the engine's answer is not assigned to (valid, err)")
 			continue
 		}
-		okObj := info.Defs[as.Lhs[0].(*ast.Ident)]
-		errObj := info.Defs[as.Lhs[1].(*ast.Ident)]
-		op, has := nilCheckOp(info, ifs.Cond, errObj)
-		els, _ := ifs.Else.(*ast.IfStmt)
 		switch {
-		case !has || op != token.NEQ || !endsInErrorReturn(info, ifs.Body, nil, fd):
+		case vu.errIf == nil || !endsInErrorReturn(info, vu.errIf.Body, nil, fd) || !precedes(parents, vu.errIf, set[0].call):
 			c.bad(key, vn[0].call.Pos(), "an engine error does not make ProcessExecutionPayload fail")
-		case els == nil:
+		case vu.okIf == nil:
 			c.bad(key, vn[0].call.Pos(), "the engine's `invalid` verdict is not examined: an unapproved payload is accepted")
 		default:
-			u, isNot := ast.Unparen(els.Cond).(*ast.UnaryExpr)
-			if !isNot || u.Op != token.NOT || !mentions(info, u.X, okObj) || !endsInErrorReturn(info, els.Body, nil, fd) {
+			fb := vu.failBranch(parents)
+			okDom := precedes(parents, vu.okIf, set[0].call) || (!vu.okNeg && mentionsNode(vu.okIf.Body, set[0].call))
+			if fb == nil || !endsInErrorReturn(info, fb, nil, fd) || !okDom {
 				c.bad(key, vn[0].call.Pos(), "the engine's `invalid` verdict does not make ProcessExecutionPayload fail")
 			} else if set[0].call.Pos() < vn[0].call.Pos() {
 				c.bad(key, set[0].call.Pos(), "payload header stored before the engine verdict")
@@ -746,6 +735,24 @@ func ruleEngineVerdict(c *Ctx) {
 			return true
 		})
 		rkey := fork + ".ProcessExecutionPayload.request"
+		if req == nil {
+			// the request built beforehand and handed over as a local
+			rdefs := singleDefs(info, fd.Body)
+			for _, a := range vn[0].call.Args {
+				if id, ok := ast.Unparen(a).(*ast.Ident); ok {
+					if d, ok := rdefs[info.Uses[id]]; ok && d.pos == 0 && d.rhs != nil {
+						ast.Inspect(d.rhs, func(n ast.Node) bool {
+							if cl, ok := n.(*ast.CompositeLit); ok {
+								if nt := namedOf(info.TypeOf(cl)); nt != nil && nt.Obj().Name() == "NewPayloadRequest" {
+									req = cl
+								}
+							}
+							return true
+						})
+					}
+				}
+			}
+		}
 		if req == nil {
 			c.unm(rkey, vn[0].call.Pos(), "NewPayloadRequest literal not found")
 			continue
@@ -802,6 +809,10 @@ func ruleEngineVerdict(c *Ctx) {
 						if call, ok := m.(*ast.CallExpr); ok {
 							if sel, ok := call.Fun.(*ast.SelectorExpr); ok && sel.Sel.Name == "ToVersionedHash" {
 								if id, ok := ast.Unparen(sel.X).(*ast.Ident); ok && rs.Value != nil && id.Name == types.ExprString(rs.Value) {
+									okVH = true
+								}
+								// or the element addressed through the range key: X[i]
+								if ix, ok := ast.Unparen(sel.X).(*ast.IndexExpr); ok && rs.Key != nil && types.ExprString(ix.X) == types.ExprString(rs.X) && types.ExprString(ix.Index) == types.ExprString(rs.Key) {
 									okVH = true
 								}
 							}
